@@ -17,6 +17,12 @@ func init() {
 		replayGen{match: func(o *Obligation) bool {
 			return strings.HasPrefix(o.Name, "blockchain.calculatePenalty/post/")
 		}, gen: genCalculatePenalty},
+		replayGen{match: func(o *Obligation) bool {
+			return strings.HasPrefix(o.Name, "(*blockchain.Blockchain).ValidateSubChain/post/tip-certificate-not-empty")
+		}, gen: genSubChainEmptyTipCert},
+		replayGen{match: func(o *Obligation) bool {
+			return strings.HasPrefix(o.Name, "(*consensus.ForkResolver).applyFork/pre/(*blockchain.Blockchain).WriteCertificate")
+		}, gen: genApplyForkNilCert},
 	)
 }
 
@@ -138,4 +144,96 @@ func TestVerifReplay(t *testing.T) {
 }
 `, o.Name, bigLit(o, "balanceAppend"), bigLit(o, "stakeAppend"), bigLit(o, "currentPenalty"), inputInt(o, "currentPenaltySeconds", "0"), inputInt(o, "penaltyTimestamp", "0"), inputInt(o, "blockTimestamp", "0"), inputInt(o, "currentPenaltySeconds", "0"))
 	return src, "blockchain"
+}
+
+// genSubChainEmptyTipCert: the model says the tip bundle carries a certificate object that is not nil
+// but has no signatures. Build a real fork on a real test chain, give its tip such a certificate and
+// ask the real ValidateSubChain.
+func genSubChainEmptyTipCert(o *Obligation, P *Program) (string, string) {
+	src := fmt.Sprintf(`package blockchain
+
+import (
+	"fmt"
+	"testing"
+
+	"github.com/idena-network/idena-go/blockchain/types"
+	"github.com/idena-network/idena-go/crypto"
+)
+
+// Replay of obligation %s
+func TestVerifReplay(t *testing.T) {
+	key, _ := crypto.GenerateKey()
+	chain, _ := NewCustomTestBlockchain(30, 0, key)
+	defer chain.SecStore().Destroy()
+	peer, _ := chain.Copy()
+	chain.GenerateBlocks(2, 1)
+	peer.GenerateBlocks(6, 0)
+	fork := peer.ReadBlockForForkedPeer(chain.GetTopBlockHashes(100))
+	if len(fork) == 0 {
+		t.Skip("no fork produced")
+	}
+	for i := range fork {
+		fork[i].Cert = &types.BlockCert{} // not nil, but without a single signature
+	}
+	common := fork[0].Block.Height() - 1
+	err := chain.ValidateSubChain(common, fork)
+	if err == nil {
+		fmt.Printf("VERIF-REPLAY-VIOLATION: ValidateSubChain accepted a fork of %%d blocks whose tip certificate has %%d signatures\n", len(fork), len(fork[len(fork)-1].Cert.Signatures))
+		t.Fail()
+	} else {
+		fmt.Println("refused:", err)
+	}
+}
+`, o.Name)
+	return src, "blockchain"
+}
+
+// genApplyForkNilCert: a fork whose intermediate bundle has no certificate (nil) but whose tip is
+// certified passes ValidateSubChain; applying it must not crash.
+func genApplyForkNilCert(o *Obligation, P *Program) (string, string) {
+	src := fmt.Sprintf(`package consensus
+
+import (
+	"fmt"
+	"testing"
+
+	"github.com/idena-network/idena-go/blockchain"
+	"github.com/idena-network/idena-go/blockchain/types"
+	"github.com/idena-network/idena-go/crypto"
+	"github.com/idena-network/idena-go/stats/collector"
+)
+
+// Replay of obligation %s
+func TestVerifReplay(t *testing.T) {
+	key, _ := crypto.GenerateKey()
+	chain, _ := blockchain.NewCustomTestBlockchain(30, 0, key)
+	defer chain.SecStore().Destroy()
+	peer, _ := chain.Copy()
+	chain.GenerateBlocks(2, 1)
+	peer.GenerateBlocks(6, 0)
+	fork := peer.ReadBlockForForkedPeer(chain.GetTopBlockHashes(100))
+	if len(fork) < 2 {
+		t.Skip("no fork produced")
+	}
+	fork[0].Cert = nil // the peer has no certificate for an intermediate block
+	resolver := NewForkResolver([]ForkDetector{}, nil, chain.Blockchain, collector.NewStatsCollector())
+	blocks := make(chan types.BlockBundle, len(fork))
+	for _, b := range fork {
+		blocks <- b
+	}
+	close(blocks)
+	if err := resolver.processBlocks(blocks, "peer"); err != nil || !resolver.HasLoadedFork() {
+		t.Skip("fork was refused: ", err)
+	}
+	defer func() {
+		if r := recover(); r != nil {
+			fmt.Println("VERIF-REPLAY-VIOLATION: applying an accepted fork crashed the node after the rollback:", r)
+			t.Fail()
+		}
+	}()
+	_, err := resolver.ApplyFork()
+	fmt.Println("applied:", err)
+}
+`, o.Name)
+	return src, "consensus"
 }
